@@ -3,7 +3,7 @@
    This file only closes statements with proved lemmas; the instance theorems are concrete histories
    (with the observations the implementation produced for them) re-evaluated inside Coq. *)
 From Coq Require Import List NArith.
-From Proto Require Import Broker Script ProofsBasic ProofsInstances.
+From Proto Require Import Broker Script ProofsBasic ProofsInstances Props ProofsForward ProofsFanout.
 Import ListNotations.
 Open Scope N_scope.
 
@@ -18,3 +18,18 @@ Print Assumptions C01_instance_c01_empty_levels.
 Theorem C01_instance_c08_retained_and_parent : run_broker [262144] h_c08_retained_and_parent = o_c08_retained_and_parent.
 Proof. exact ProofsInstances.inst_c08_retained_and_parent. Qed.
 Print Assumptions C01_instance_c08_retained_and_parent.
+
+(* whatever setters the fan-out applied to a received PUBLISH, what is written decodes to the same topic and payload with the QoS / retain / dup that were set, and a non-zero identifier iff QoS > 0 *)
+Theorem C01_forward_roundtrip : Props.C01_forward_roundtrip.
+Proof. exact ProofsForward.forward_roundtrip. Qed.
+Print Assumptions C01_forward_roundtrip.
+
+(* one received PUBLISH: exactly one packet (or in-process call) per matching subscriber of the store, QoS = min(publish, granted), same topic and payload, retain clear *)
+Theorem C01_fanout : Props.C01_fanout.
+Proof. exact ProofsFanout.fanout. Qed.
+Print Assumptions C01_fanout.
+
+(* the fan-out changes nothing in the stores but the retained message of that topic *)
+Theorem C01_fanout_store : Props.C01_fanout_store.
+Proof. exact ProofsFanout.fanout_store. Qed.
+Print Assumptions C01_fanout_store.
